@@ -60,15 +60,81 @@ class Scratch:
 
 
 # ------------------------------------------------------------------ Tripoli-4
+def check_mesh(rep, tag, case, item, resp, zone):
+    """Compare one browser item with one printed 'Results on a mesh' block."""
+    res = item['results']
+
+    def bad(clause, text):
+        rep.violate(f'C10|t4|mesh-{clause}|{tag}', text, case, size=len(str(case)))
+
+    for key, exp in (('response_function', resp['function']), ('response_name', resp['name']), ('score_name', resp['score_name']),
+                     ('scoring_zone_type', 'Mesh')):
+        if item.get(key) != exp:
+            bad('metadata', f'{key}={item.get(key)!r}, printed {exp!r}')
+    edges_inc = sorted(ff(e) for e in zone['egroups'])
+    edges_dec = [ff(e) for e in zone['egroups']]
+    groups = list(zip(edges_dec[:-1], edges_dec[1:]))
+    printed = groups[::-1] if zone['e_increasing_print'] else groups
+    gindex = {(min(g), max(g)): i for i, g in enumerate(printed)}
+    ncell = zone['mesh']
+    score = res.get('score')
+    if score is None:
+        bad('missing', 'no score dataset')
+        return
+    val, err = np.asarray(score.value), np.asarray(score.error)
+    if val.shape != tuple(ncell) + (len(groups), 1, 1, 1):
+        bad('shape', f'score shape {val.shape}, printed mesh {ncell} x {len(groups)} groups')
+        return
+    if not np.array_equal(np.asarray(score.bins['e']), np.array(edges_inc)):
+        bad('bins-e', f"e bins {np.asarray(score.bins['e']).tolist()}, printed boundaries sorted {edges_inc}")
+        return
+    for axis, name in enumerate('uvw'):
+        if list(np.asarray(score.bins[name])) != list(range(ncell[axis])):
+            bad('bins-space', f'{name} bins {np.asarray(score.bins[name]).tolist()} for {ncell[axis]} printed cells')
+    integ = res.get('score_eintegrated')
+    for cell in itertools.product(*(range(n) for n in ncell)):
+        for ie in range(len(groups)):
+            pval, psig = zone['cells'][('mesh', gindex[(edges_inc[ie], edges_inc[ie + 1])], cell)]
+            pval, psig = ff(pval), ff(psig)
+            gval, gerr = val[cell + (ie, 0, 0, 0)], err[cell + (ie, 0, 0, 0)]
+            if not close(gval, pval):
+                bad('value', f'cell {cell} e=[{edges_inc[ie]}, {edges_inc[ie + 1]}]: value {gval!r}, printed {pval!r}')
+            if not close(gerr, pval * psig / 100.0):
+                bad('error', f'cell {cell} e=[{edges_inc[ie]}, {edges_inc[ie + 1]}]: error {gerr!r}, printed {pval!r} x {psig!r}%')
+        if integ is not None and np.shape(integ.value)[:3] == tuple(ncell):
+            pval, psig = (ff(x) for x in zone['cells'][('mesh', None, cell)])
+            gval, gerr = np.asarray(integ.value)[cell].ravel()[0], np.asarray(integ.error)[cell].ravel()[0]
+            if not close(gval, pval):
+                bad('integrated-value', f'energy-integrated cell {cell}: value {gval!r}, printed {pval!r}')
+            if not close(gerr, pval * psig / 100.0):
+                bad('integrated-error', f'energy-integrated cell {cell}: error {gerr!r}, printed {pval!r} x {psig!r}%')
+    if integ is None or np.shape(integ.value)[:3] != tuple(ncell):
+        bad('missing', f'score_eintegrated {None if integ is None else np.shape(integ.value)} for the printed mesh {ncell}')
+    tot = res.get('score_integrated')
+    pint = zone['integrated'][None]
+    if tot is None:
+        bad('missing', 'no score_integrated dataset')
+    else:
+        tval, terr = np.asarray(tot.value).ravel(), np.asarray(tot.error).ravel()
+        if tval.size != 1 or not close(tval[0], ff(pint[0])) or not close(terr[0], ff(pint[0]) * ff(pint[1]) / 100.0):
+            bad('integrated-value', f'score_integrated {tval.tolist()} +- {terr.tolist()}, printed {ff(pint[0])!r} x {ff(pint[1])!r}%')
+    used = res.get('used_batches')
+    if used is not None and int(used.value) != zone['used']:
+        bad('used-batches', f'used_batches {used.value!r}, printed {zone["used"]}')
+
+
 def check_zone(rep, tag, case, item, resp, zone):
     """Compare one browser item with one printed scoring zone."""
+    if zone.get('mesh'):
+        check_mesh(rep, tag, case, item, resp, zone)
+        return
     res = item['results']
 
     def bad(clause, text):
         rep.violate(f'C10|t4|{clause}|{tag}', text, case, size=len(str(case)))
 
     for key, exp in (('response_function', resp['function']), ('response_name', resp['name']), ('score_name', resp['score_name']),
-                     ('scoring_zone_id', zone['vol'])):
+                     ('scoring_zone_id', (zone['vol'] + 1, zone['vol']) if zone.get('mus') else zone['vol'])):
         if item.get(key) != exp:
             bad('metadata', f'{key}={item.get(key)!r}, printed {exp!r}')
     edges_inc = sorted(ff(e) for e in zone['egroups'])
@@ -91,21 +157,35 @@ def check_zone(rep, tag, case, item, resp, zone):
             bad('bins-t', f"t bins {np.asarray(score.bins['t']).tolist()}, printed boundaries sorted {tb}")
             return
         tindex = {(ff(ts[0]), ff(ts[1])): i for i, ts in enumerate(tsteps)}
-    exp_shape = (1, 1, 1, len(groups), len(tsteps) if tsteps else 1, 1, 1)
+    mus, phis = zone.get('mus'), zone.get('phis')
+    axes = {}
+    for name, steps in (('mu', mus), ('phi', phis)):
+        if not steps:
+            continue
+        bounds = sorted(set(ff(x) for st in steps for x in st))
+        if not np.array_equal(np.asarray(score.bins[name]), np.array(bounds)):
+            bad(f'bins-{name}', f"{name} bins {np.asarray(score.bins[name]).tolist()}, printed boundaries sorted {bounds}")
+            return
+        axes[name] = (bounds, {(ff(st[0]), ff(st[1])): i for i, st in enumerate(steps)})
+    exp_shape = (1, 1, 1, len(groups), len(tsteps) if tsteps else 1, len(mus) if mus else 1, len(phis) if phis else 1)
     if val.shape != exp_shape:
         bad('shape', f'score shape {val.shape}, expected {exp_shape}')
         return
-    for ie in range(len(groups)):
-        for it in range(exp_shape[4]):
-            gpr = gindex[(edges_inc[ie], edges_inc[ie + 1])]
-            tpr = None if not tsteps else tindex[(tb[it], tb[it + 1])]
-            pval, psig = zone['cells'][(tpr, gpr)]
-            pval, psig = ff(pval), ff(psig)
-            gval, gerr = val[0, 0, 0, ie, it, 0, 0], err[0, 0, 0, ie, it, 0, 0]
-            if not close(gval, pval):
-                bad('value', f'cell e=[{edges_inc[ie]}, {edges_inc[ie + 1]}] t-index {it}: value {gval!r}, printed {pval!r}')
-            if not close(gerr, pval * psig / 100.0):
-                bad('error', f'cell e=[{edges_inc[ie]}, {edges_inc[ie + 1]}] t-index {it}: error {gerr!r}, printed {pval!r} x {psig!r}%')
+    for ie, it, im, ip in itertools.product(*(range(n) for n in exp_shape[3:])):
+        gpr = gindex[(edges_inc[ie], edges_inc[ie + 1])]
+        tpr = None if not tsteps else tindex[(tb[it], tb[it + 1])]
+        mpr = None if not mus else axes['mu'][1][(axes['mu'][0][im], axes['mu'][0][im + 1])]
+        ppr = None if not phis else axes['phi'][1][(axes['phi'][0][ip], axes['phi'][0][ip + 1])]
+        pval, psig = zone['cells'][t4gen.cell_key(tpr, mpr, ppr, gpr)]
+        pval, psig = ff(pval), ff(psig)
+        gval, gerr = val[0, 0, 0, ie, it, im, ip], err[0, 0, 0, ie, it, im, ip]
+        where = f'cell e=[{edges_inc[ie]}, {edges_inc[ie + 1]}] t-index {it}' + (f' mu-index {im} phi-index {ip}' if mus else '')
+        if not close(gval, pval):
+            bad('value', f'{where}: value {gval!r}, printed {pval!r}')
+        if not close(gerr, pval * psig / 100.0):
+            bad('error', f'{where}: error {gerr!r}, printed {pval!r} x {psig!r}%')
+    if mus:
+        return                # angular spectra carry no energy-integrated result
     ikey = 'score_eintegrated' if tsteps else 'score_integrated'
     integ = res.get(ikey)
     if integ is None:
@@ -192,8 +272,12 @@ def check_listing(rep, scr, params):
     case = {'format': 'tripoli4', 'make_spec': params}
     tag = (f"e={'inc' if params['e_inc'] else 'dec'}|t={0 if not params['ntsteps'] else ('inc' if params['t_inc'] else 'dec')}"
            f"|conv={params['converged']}")
+    if params.get('mesh'):
+        tag += '|mesh'
+    if params.get('nmu'):
+        tag += f"|mu={'inc' if params['mu_inc'] else 'dec'}|phi={0 if not params['nphi'] else ('inc' if params['phi_inc'] else 'dec')}"
     nont = params['e_inc'] is False or (params['ntsteps'] and not params['t_inc']) or params['neditions'] > 1 \
-        or params['nzones'] > 1 or len(params['values']) > 1 or not params['converged']
+        or params['nzones'] > 1 or len(params['values']) > 1 or not params['converged'] or params.get('nmu') or params.get('mesh')
     rep.case(nontrivial=repr(sorted(params.items())) if nont else None,
              outcome=('t4', params['neditions'], params['ntsteps'], params['keff']))
     try:
@@ -248,6 +332,19 @@ def t4_params(tier):
             continue
         out.append(dict(neditions=ned, nresp=nre, nzones=nzo, negroups=neg, e_inc=einc, ntsteps=nts, t_inc=tinc,
                         values=vals, sigmas=sigs, converged=conv, keff=keff))
+    # angular spectra (layout of gauss_E_time_mu_phi): mu zones, optionally phi zones inside, each printed increasing or decreasing
+    avars = [(2, True, 0, True), (2, False, 0, True), (2, True, 2, False), (2, False, 2, True), (3, False, 2, False)]
+    if tier == 'thorough':
+        avars += [(3, True, 3, True), (3, False, 3, False), (2, False, 3, False)]
+    for ned, nzo, neg, einc, (nts, tinc), (nmu, minc, nphi, pinc), vals in itertools.product(
+            (1, 2), (1, 2), (1, 2), (False, True), tvars[:3], avars, vpats[:2]):
+        out.append(dict(neditions=ned, nresp=1, nzones=nzo, negroups=neg, e_inc=einc, ntsteps=nts, t_inc=tinc, values=vals,
+                        sigmas=(1.5, 100.0, 0.0, 2.5), converged=True, keff=None, nmu=nmu, mu_inc=minc, nphi=nphi, phi_inc=pinc))
+    # results on a mesh (layout of tungstene / cylindreDecR_with_kij_on_mesh): cells x energy ranges, energy-integrated cells, total
+    meshes = [(1, 1, 1), (2, 1, 1), (1, 1, 3), (2, 2, 1), (2, 1, 3)] + ([(2, 3, 2), (3, 1, 2)] if tier == 'thorough' else [])
+    for ned, nre, neg, einc, mesh, vals, sigs in itertools.product((1, 2), (1, 2), (1, 2, 3), (False, True), meshes, vpats[:2], spats):
+        out.append(dict(neditions=ned, nresp=nre, nzones=1, negroups=neg, e_inc=einc, ntsteps=0, t_inc=True, values=vals, sigmas=sigs,
+                        converged=True, keff=None, mesh=mesh))
     return out
 
 
